@@ -205,6 +205,7 @@ def run(ctx):
     _condition_rules(ctx)
     _size_types(ctx)
     _loop_control(ctx)
+    _brace_elision(ctx)
 
 
 def _promo_rules(ctx):
@@ -506,6 +507,71 @@ def _loop_control(ctx):
     pushes = [norm(c.func) for c in ast.walk(sw) if isinstance(c, ast.Call) and norm(c.func).endswith("_block_stack.append")]
     pops = [norm(c.func) for c in ast.walk(sw) if isinstance(c, ast.Call) and norm(c.func).endswith("_block_stack.pop")]
     ctx.ob("C01.R8", CG + ":CCodeGenerator.gen_switch", "a switch is a break target but not a continue target (continue inside a switch belongs to the enclosing loop)", pushes == ["self.break_block_stack.append"] and pops == ["self.break_block_stack.pop"], construct="switch-break-only", detail="%s / %s" % (pushes, pops))
+
+
+INI = "ppci/lang/c/init.py"
+
+
+def _brace_elision(ctx):
+    """C01.R9 (C11 6.7.9 p17-22).  With braces elided, one initializer list fills nested aggregates in order; when a
+    sub-aggregate that was entered implicitly is full the cursor returns to the parent and advances there - and the
+    parent may be full at that very moment too, so this repeats until a level with room (or an explicit level) is
+    current.  `int g[2][2][2] = {1,2,3,4,5,6,7,8}` needs two levels left after the 4th element."""
+    from .. import minieval
+    ctx.rule("C01.R9", "initializer cursor: after an element every finished implicitly entered level is left, repeatedly, and the parent advanced each time; unwind drops all implicit levels; a struct level is full after its last field, an array level after `size` elements (never when the size is open), a union level after one member; go_next advances by exactly one", floor=8)
+    ne = ctx.fn(INI, "InitCursor.next_element")
+    site = INI + ":InitCursor.next_element"
+    body = [st for st in ne.body if not (isinstance(st, ast.Expr) and isinstance(st.value, ast.Constant))]
+    ok = bool(body) and isinstance(body[0], ast.Expr) and norm(body[0].value) == "self.level.go_next()"
+    ctx.ob("C01.R9", site, "the current level is advanced first", ok, construct="advance-first")
+    leaves = [c for c in ast.walk(ne) if isinstance(c, ast.Call) and norm(c.func) in ("self.leave_compound", "self._stack.pop")]
+    ctx.need(len(leaves) == 1, "next_element: the call that leaves a level was not found")
+    loops = [a for a in _ancestors(leaves[0]) if isinstance(a, ast.While)]
+    rec = [c for a in _ancestors(leaves[0]) if isinstance(a, ast.If) for c in ast.walk(a) if isinstance(c, ast.Call) and norm(c.func) == "self.next_element"]
+    holder = loops[0] if loops else next((a for a in _ancestors(leaves[0]) if isinstance(a, ast.If)), None)
+    test = set()
+    if holder is not None:
+        t = holder.test
+        test = {norm(v) for v in (t.values if isinstance(t, ast.BoolOp) and isinstance(t.op, ast.And) else [t])}
+    ctx.ob("C01.R9", site, "a level is left only when it is full and was entered implicitly", test == {"self.level.at_end()", "self.level.implicit"}, construct="leave-guard", node=leaves[0], detail="guard: %s" % sorted(test))
+    ctx.ob("C01.R9", site, "leaving repeats until the current level has room or is explicit (a loop, or a recursive call that advances the parent)", bool(loops) or bool(rec), construct="leave-repeats", node=leaves[0],
+           detail="enclosing while: %d, recursive call: %d" % (len(loops), len(rec)))
+    if holder is not None:
+        seq = [norm(st.value) for st in holder.body if isinstance(st, ast.Expr)]
+        ok = seq[:2] == ["self.leave_compound()", "self.level.go_next()"] or seq[:2] == ["self.leave_compound()", "self.next_element()"] or seq[:2] == ["self._stack.pop()", "self.level.go_next()"]
+        ctx.ob("C01.R9", site, "after a level is left the parent advances past the sub-aggregate that was just completed", ok, construct="parent-advances", detail=str(seq))
+    uw = ctx.fn(INI, "InitCursor.unwind")
+    wl = [n for n in ast.walk(uw) if isinstance(n, ast.While) and norm(n.test) == "self.level.implicit" and any(isinstance(c, ast.Call) and norm(c.func) in ("self._stack.pop", "self.leave_compound") for c in ast.walk(n))]
+    ctx.ob("C01.R9", INI + ":InitCursor.unwind", "unwind leaves every implicit level up to the innermost explicit one", len(wl) == 1, construct="unwind-loop")
+    def run_method(q, env, args=()):
+        fn = ctx.fn(INI, q)
+        return minieval.call(fn, list(args), dict(env))
+    try:
+        bad = []
+        for size in (None, 0, 1, 2, 3):
+            for pos in range(0, 5):
+                got = run_method("ArrayInitLevel.at_end", {"self.size": size, "self.pos": pos})
+                if bool(got) != (size is not None and pos >= size):
+                    bad.append((size, pos, got))
+        ctx.ob("C01.R9", INI + ":ArrayInitLevel.at_end", "an array level is full exactly when `size` elements were passed; never when the size is open", not bad, construct="array-at-end", detail="(size, pos, answer): %s" % bad[:4])
+        bad = []
+        for nf in range(0, 4):
+            for pos in range(0, 5):
+                got = run_method("StructInitLevel.at_end", {"self.typ.fields": tuple(range(nf)), "self.pos": pos})
+                if bool(got) != (pos >= nf):
+                    bad.append((nf, pos, got))
+        ctx.ob("C01.R9", INI + ":StructInitLevel.at_end", "a struct level is full exactly after its last field", not bad, construct="struct-at-end", detail="(fields, pos, answer): %s" % bad[:4])
+    except minieval.Undecidable as e:
+        ctx.undecided("C01.R9", INI, "at_end: %s" % e)
+    for cls in ("ArrayInitLevel", "StructInitLevel"):
+        gn = ctx.fn(INI, cls + ".go_next")
+        st = [s for s in gn.body if not (isinstance(s, ast.Expr) and isinstance(s.value, ast.Constant))]
+        ok = len(st) == 1 and ((isinstance(st[0], ast.AugAssign) and norm(st[0].target) == "self.pos" and isinstance(st[0].op, ast.Add) and norm(st[0].value) == "1")
+                               or (isinstance(st[0], ast.Assign) and norm(st[0].targets[0]) == "self.pos" and norm(st[0].value) in ("self.pos + 1", "1 + self.pos")))
+        ctx.ob("C01.R9", "%s:%s.go_next" % (INI, cls), "go_next advances the position by exactly one", ok, construct="go-next:" + cls)
+    un = ctx.fn(INI, "UnionInitLevel.go_next")
+    ok = any(isinstance(s, ast.Assign) and norm(s.targets[0]) == "self._end" and norm(s.value) == "True" for s in un.body)
+    ctx.ob("C01.R9", INI + ":UnionInitLevel.go_next", "a union level is full after one member", ok and norm(ctx.fn(INI, "UnionInitLevel.at_end").body[-1]) == "return self._end", construct="union-one-member")
 
 
 def _ancestors(n):
